@@ -281,6 +281,13 @@ class Interp:
         if isinstance(fn, Opaque):
             self.ctx.note(f"unmodelled-call:{fn.why}()")
             return Opaque(f"{fn.why}()")
+        if isinstance(fn, SObj) and fn.pycls is not None:
+            for klass, handler in getattr(self, "instance_models", ()):
+                if isinstance(fn.pycls, type) and issubclass(fn.pycls, klass):
+                    return handler(self, fn, *args, **kwargs)
+            cm = getattr(fn.pycls, "__call__", None)
+            if cm is not None and not isinstance(cm, type(object.__call__)):
+                return self.call(cm, [fn] + list(args), kwargs)
         if isinstance(fn, Sym):
             raise Undecided(f"call of symbolic value {fn!r}")
         # real callables -----------------------------------------------------------------
